@@ -100,9 +100,9 @@ def small_cases(quick):
     out.append((['case 0 8 8 32 8 3 fail=- offs=0', 'seq 0 a1', 'seq 1 a1', 'seq 2 a1', 'prog 0 r0', 'prog 1 r0', 'prog 2 r0'], 100))   # 90: overshoot 1+2
     out.append((['case 0 8 16 32 16 2 fail=1 offs=16', 'seq 0 a1', 'seq 0 r0', 'prog 0 a1 a1 r0', 'prog 1 a1 r1 r0'], 300 if quick else 3000))
     out.append((['case 0 24 8 100 0 2 fail=- offs=0', 'prog 0 a2 r0', 'prog 1 a3 a1 r0'], 2000))                  # count > 1, max_used 4
-    out.append((['case 0 8 8 24 8 3 fail=- offs=0,8', 'prog 0 a1 r0', 'prog 1 a1 r0', 'prog 2 a1 r0'], 400 if quick else 40000))
+    out.append((['case 0 8 8 24 8 3 fail=- offs=0,8', 'prog 0 a1 r0', 'prog 1 a1 r0', 'prog 2 a1 r0'], 400 if quick else 35000))
     if not quick:
-        out.append((['case 0 8 8 40 16 2 fail=2 offs=0', 'seq 1 a1', 'seq 1 r0', 'prog 0 a1 r0 a1 r0', 'prog 1 a1 a2 r1 r0'], 200000))
+        out.append((['case 0 8 8 40 16 2 fail=2 offs=0', 'seq 1 a1', 'seq 1 r0', 'prog 0 a1 r0 a1 r0', 'prog 1 a1 a2 r1 r0'], 30000))
         out.append((['case 0 8 8 %d 8 4 fail=- offs=0' % big, 'seq 0 a1', 'seq 1 a1', 'seq 2 a1', 'seq 3 a1', 'prog 0 r0', 'prog 1 r0', 'prog 2 r0', 'prog 3 r0'], 3000))
     return out
 
@@ -274,19 +274,39 @@ def to_input(ops):
     return ls
 
 
+def input_case(lines, op):
+    """the input lines (up to and including the run / pend line) of the case whose transcript op is `op`"""
+    key = ' '.join(x for x in op.split() if not x.startswith('hdr=') and not x.startswith('item='))
+    for i, l in enumerate(lines):
+        if l == key:
+            j = i + 1
+            while j < len(lines) and not lines[j].startswith(('run', 'case ', 'pool ')):
+                j += 1
+            if j < len(lines) and lines[j].startswith('run'):
+                j += 1
+            return lines[i:j]
+    return lines[:60]
+
+
 def run_batch(exe, lines, use_driver, timeout=1500):
     rc, out, err = pv.sh([exe], input='\n'.join(lines) + '\n', timeout=timeout)
     ops, impl, stats, viols = pv.parse_transcript(out)
     o = {'runs': 0, 'steps': 0, 'dis': [], 'viol': [], 'keys': set(), 'stats': stats, 'samples': [], 'feat': {}, 'overshoot_stress': 0}
-    for v in viols:
-        o['viol'].append({'key': v, 'what': v, 'case': lines[:60]})
+    cur = None      # op line of the execution being printed
     for l in out.splitlines():
-        if l.startswith('#overshoot'):
+        if ' => ' in l and l.startswith(('case ', 'pool ')):
+            cur = l.split(' => ', 1)[0]
+        elif l.startswith('pstress'):
+            cur = None
+        if l.startswith('!viol'):
+            v = l[5:].strip()
+            o['viol'].append({'key': v, 'what': v, 'case': input_case(lines, cur) if cur else lines[:10]})
+        elif l.startswith('#overshoot'):
             o['overshoot_stress'] += 1
-            o['viol'].append({'key': F1, 'what': 'free-running stress: ' + l[1:], 'case': lines[:10]})
+            o['viol'].append({'key': F1, 'what': 'free-running stress: ' + l[1:], 'case': input_case(lines, cur) if cur else lines[:10]})
     if rc != 0:
         o['viol'].append({'key': 'harness-exit-%d' % rc, 'what': 'harness exited with %d after %d ops; last op: %s; stderr: %s' % (rc, len(ops), ops[-1] if ops else None, err[-700:]),
-                          'case': lines[:80]})
+                          'case': input_case(lines, cur) if cur else lines[:80]})
     model = None
     if use_driver and ops:
         rcd, model, derr = pv.run_driver('pv_C27', ops, timeout=timeout)
@@ -342,15 +362,15 @@ def run(ctx, res, lines=None):
         for c in corpus_cases():
             batches.append((exe, c, not any(l.startswith('run fine') for l in c)))
         k = 0
-        for sc, cap in small_cases(q):
+        for sc, cap in sorted(small_cases(q), key=lambda x: -x[1]):      # longest first
             batches.append((exe_fast, sc + ['run dfs %d' % cap], True))
         seqs = []
-        for _ in range(250 if q else 6000):
+        for _ in range(250 if q else 3000):
             seqs += gen_seq_case(rng, k, q); k += 1
         chunk = 1500 if q else 8000
         batches += [(exe, seqs[i:i + chunk], True) for i in range(0, len(seqs), chunk)]   # (chunks may cut a case: harmless, a cut case is not executed)
         coop, cur = [], []
-        for _ in range(150 if q else 8000):
+        for _ in range(150 if q else 3000):
             cur += gen_coop_case(rng, k); k += 1
             if len(cur) > 500:
                 coop.append(cur); cur = []
@@ -358,11 +378,11 @@ def run(ctx, res, lines=None):
             coop.append(cur)
         batches += [(exe_fast, b, True) for b in coop]
         san = []
-        for _ in range(30 if q else 1500):       # the same under ASan/UBSan
+        for _ in range(30 if q else 500):       # the same under ASan/UBSan
             san += gen_coop_case(rng, k); k += 1
         batches.append((exe, san, True))
         fine = []
-        for _ in range(40 if q else 2500):
+        for _ in range(40 if q else 1000):
             fine += gen_coop_case(rng, k, policy='run fine rng %d' % (rng.next() % 1000000007)); k += 1
         batches.append((exe_fast, fine[:len(fine) // 2], False))
         batches.append((exe if q else exe_fast, fine[len(fine) // 2:], False))
@@ -379,6 +399,16 @@ def run(ctx, res, lines=None):
     workers = 4 if q else 6
     with ThreadPoolExecutor(max_workers=workers) as ex:
         outs = list(ex.map(lambda b: run_batch(b[0], b[1], b[2] and ctx.driver_ok), batches))
+    if lines is None and (not q or any(o['dis'] for o in outs) or not ctx.driver_ok):
+        # the correspondence broke (or thorough tier): search harder for a failing execution with free-running threads
+        big = 10 ** 17
+        hard = []
+        for elem, align, u, r, n, it in [(8, 8, 8 * 4000, 0, 8, 200000), (8, 8, 8 * 12, 8 * 2, 4, 300000), (16, 16, big, 16 * 3, 8, 200000), (8, 8, 8 * 4000, 8 * 4, 16, 60000)]:
+            hard.append((exe_fast, ['case %d %d %d %d %d %d fail=- offs=0,8' % (9000 + len(hard), elem, align, u, r, n), 'run race %d %d' % (it, rng.next() % 1000003)], True))
+        with ThreadPoolExecutor(max_workers=2) as ex:
+            houts = list(ex.map(lambda b: run_batch(b[0], b[1], b[2] and ctx.driver_ok), hard))
+        batches += hard
+        outs += houts
     if not ctx.driver_ok:
         res.notes.append('model driver unavailable: correspondence not run, oracle only')
     stats, feat, keys = {}, {}, set()
